@@ -18,6 +18,7 @@ ScnOK(sc) == /\ sc.op \in Ops
              /\ \A j \in 1..(Len(sc.src) - 1) : sc.src[j].t <= sc.src[j + 1].t
              /\ sc.term \in TermsOf(sc.src)
              /\ sc.dsp \in (IF Disposes THEN 0..MaxT ELSE {}) \cup {INF}
+             /\ sc.dmode \in {"all"} \cup (IF sc.dsp # INF /\ OuterOnly /\ sc.op \in {"group_by", "group_by_until"} THEN {"outer"} ELSE {})
              /\ sc.rx.g \in RxG /\ sc.rx.v \in Vals /\ (sc.rx.g # 0 => (sc.op = "group_by_until" /\ sc.par.dn = 0))
              /\ LET p == Norm(sc.op, sc.par) IN
                 CASE sc.op \in {"partition", "partition_indexed"} -> \A v \in Vals : p.p[v] \in 0..2
@@ -27,7 +28,7 @@ ScnOK(sc) == /\ sc.op \in Ops
 ASSUME LET all == Scns IN \A n \in 1..Len(all) : ScnOK(all[n])
 
 InitFrom == /\ LET all == Scns IN \E n \in 1..Len(all) : LET sc == all[n] IN
-                 /\ op = sc.op /\ par = Norm(sc.op, sc.par) /\ src = sc.src /\ term = sc.term /\ dsp = sc.dsp /\ rx = sc.rx
+                 /\ op = sc.op /\ par = Norm(sc.op, sc.par) /\ src = sc.src /\ term = sc.term /\ dsp = sc.dsp /\ dmode = sc.dmode /\ rx = sc.rx
             /\ abandon \in (IF HasFault THEN BOOLEAN ELSE {FALSE})
             /\ i = 1 /\ now = 0 /\ step = 0 /\ arr = <<>> /\ seen = <<>>
             /\ S = InitS
